@@ -1,4 +1,5 @@
-(* DRAFT proofs for C07-T1: evaluating expressions never touches the world *)
+(* C07-T1: evaluating expressions never touches input, output, files or handles; the only requests evaluation makes are the module ones of ㅂ
+   (search the tree, read a module file or find it registered, register it), which leave all of those as they are *)
 From Coq Require Import ZArith NArith List Bool FMapPositive Lia.
 Import ListNotations.
 Require Import Base Strings Num Builtins Interp Machine Spec Refine2.
@@ -15,14 +16,15 @@ Inductive wfree : forall {A:Type}, Comp A -> Prop :=
 | wf_fresh A (k:positive -> Comp A) : (forall x, wfree (k x)) -> wfree (Fresh k)
 | wf_peek A t (k:option Z -> Comp A) : (forall x, wfree (k x)) -> wfree (PeekLit t k)
 | wf_call A p (k:value -> Comp A) : pure_proc p -> (forall x, wfree (k x)) -> wfree (Call p k)
-| wf_catch A c h (k:value -> Comp A) : wfree c -> (forall e, wfree (h e)) -> (forall x, wfree (k x)) -> wfree (Catch c h k).
+| wf_catch A c h (k:value -> Comp A) : wfree c -> (forall e, wfree (h e)) -> (forall x, wfree (k x)) -> wfree (Catch c h k)
+| wf_world A o (k:value -> Comp A) : module_op o = true -> (forall x, wfree (k x)) -> wfree (World o k).
 
 Lemma wfree_bind A B (c:Comp A) (f:A -> Comp B) : wfree c -> (forall x, wfree (f x)) -> wfree (bind c f).
 Proof. intros W; revert B f; induction W; intros B0 f0 Hf; cbn [bind]; try constructor; auto. Qed.
 
 #[local] Hint Constructors wfree : wf.
 #[local] Hint Resolve wfree_bind : wf.
-Ltac wf := repeat first [ progress intros | apply wfree_bind | constructor | exact I
+Ltac wf := repeat first [ progress intros | apply wfree_bind | constructor | exact I | reflexivity
                         | match goal with |- wfree (match ?x with _ => _ end) => destruct x end
                         | match goal with |- wfree (if ?x then _ else _) => destruct x end
                         | match goal with |- wfree (let '(_, _) := ?x in _) => destruct x end
@@ -49,6 +51,9 @@ Lemma wf_peek_lits l : wfree (peek_lits l). Proof. induction l as [|v l IH]; cbn
 Lemma wf_real_binop sp op a d : wfree (real_binop sp op a d). Proof. unfold real_binop. wfa. Qed.
 #[local] Hint Resolve wf_all_bools wf_equals_loop wf_fold_loop wf_procs wf_peek_lits wf_real_binop : wf.
 
+Lemma wf_load_from_path sp p : wfree (load_from_path sp p).
+Proof. unfold load_from_path. wfa. Qed.
+#[local] Hint Resolve wf_load_from_path : wf.
 Lemma wf_builtin n sp argv : wfree (builtin n sp argv).
 Proof.
   unfold builtin.
@@ -83,16 +88,16 @@ Proof. destruct p; intros []; cbn [proc_body]; auto using wf_apply_body, wf_deep
 (* ---- the theorem ---- *)
 Definition pure_task (tk:task) : Prop := match tk with TThunk _ => True | TComp c => wfree c end.
 Definition keeps_world (f:list positive -> heap -> world -> task -> out) :=
-  forall ip h w tk h' w' r d, pure_task tk -> f ip h w tk = Done h' w' r d -> w' = w.
+  forall ip h w tk h' w' r d, pure_task tk -> f ip h w tk = Done h' w' r d -> io_of w' = io_of w.
 
-Lemma run_pure f : keeps_world f -> forall c, wfree c -> forall ip h w h' w' r d, run f ip h w c = Done h' w' r d -> w' = w.
+Lemma run_pure f : keeps_world f -> forall c, wfree c -> forall ip h w h' w' r d, run f ip h w c = Done h' w' r d -> io_of w' = io_of w.
 Proof.
   intros Kf c W.
   assert (G : forall (A:Type) (c0:Comp A), wfree c0 -> forall (E: A = value), forall ip h w h' w' r d,
-             run f ip h w (eq_rect A Comp c0 value E) = Done h' w' r d -> w' = w).
+             run f ip h w (eq_rect A Comp c0 value E) = Done h' w' r d -> io_of w' = io_of w).
   2:{ intros. eapply (G value c W eq_refl); eauto. }
   clear c W. intros A c0 W.
-  induction W as [A a|A e|A v k Hk IHk|A a e k Hk IHk|A b e k Hk IHk|A f0 k Hk IHk|A f0 av k Hk IHk|A k Hk IHk|A t k Hk IHk|A p k Hp Hk IHk|A c hh k Wc IHc Hh IHh Hk IHk];
+  induction W as [A a|A e|A v k Hk IHk|A a e k Hk IHk|A b e k Hk IHk|A f0 k Hk IHk|A f0 av k Hk IHk|A k Hk IHk|A t k Hk IHk|A p k Hp Hk IHk|A c hh k Wc IHc Hh IHh Hk IHk|A o k Ho Hk IHk];
     intros E ip h w h' w' r d Hr; subst; cbn [eq_rect run] in Hr.
   - inversion Hr; auto.
   - inversion Hr; auto.
@@ -100,8 +105,8 @@ Proof.
     destruct (get h u) as [cl|]; [|inversion Hr; auto]. destruct (c_cache cl) as [[sv|er]|]; [eapply (IHk _ eq_refl _ _ _ _ _ _ _ Hr)|inversion Hr; auto|].
     destruct (existsb (Pos.eqb u) ip); [discriminate|].
     destruct (f ip h w (TThunk u)) as [h1 w1 r1 d1| |] eqn:F; try discriminate.
-    assert (w1 = w) by (eapply Kf; [|exact F]; exact I). subst w1.
-    destruct r1 as [sv|er]; [|inversion Hr; auto]. apply updd_inv in Hr. destruct Hr as (d2 & Hr & _). eapply (IHk _ eq_refl _ _ _ _ _ _ _ Hr).
+    assert (E1 : io_of w1 = io_of w) by (eapply Kf; [|exact F]; exact I).
+    destruct r1 as [sv|er]; [|inversion Hr; subst; auto]. apply updd_inv in Hr. destruct Hr as (d2 & Hr & _). rewrite <- E1. eapply (IHk _ eq_refl _ _ _ _ _ _ _ Hr).
   - destruct (alloc h a e). eapply (IHk _ eq_refl _ _ _ _ _ _ _ Hr).
   - destruct (newclo h b e). eapply (IHk _ eq_refl _ _ _ _ _ _ _ Hr).
   - destruct (PositiveMap.find f0 (clos h)); [eapply (IHk _ eq_refl _ _ _ _ _ _ _ Hr)|inversion Hr; auto].
@@ -109,16 +114,20 @@ Proof.
   - destruct (fresh h). eapply (IHk _ eq_refl _ _ _ _ _ _ _ Hr).
   - destruct (get h t); [eapply (IHk _ eq_refl _ _ _ _ _ _ _ Hr)|inversion Hr; auto].
   - destruct (f ip h w (TComp (proc_body p))) as [h1 w1 r1 d1| |] eqn:F; try discriminate.
-    assert (w1 = w) by (eapply Kf; [|exact F]; simpl; apply wf_pure_body; auto). subst w1.
-    destruct r1 as [sv|er]; [|inversion Hr; auto]. apply updd_inv in Hr. destruct Hr as (d2 & Hr & _). eapply (IHk _ eq_refl _ _ _ _ _ _ _ Hr).
+    assert (E1 : io_of w1 = io_of w) by (eapply Kf; [|exact F]; simpl; apply wf_pure_body; auto).
+    destruct r1 as [sv|er]; [|inversion Hr; subst; auto]. apply updd_inv in Hr. destruct Hr as (d2 & Hr & _). rewrite <- E1. eapply (IHk _ eq_refl _ _ _ _ _ _ _ Hr).
   - destruct (run f ip h w c) as [h1 w1 r1 d1| |] eqn:R1; try discriminate.
-    assert (w1 = w) by (eapply (IHc eq_refl _ _ _ _ _ _ _ R1)). subst w1.
+    assert (E1 : io_of w1 = io_of w) by (eapply (IHc eq_refl _ _ _ _ _ _ _ R1)).
     destruct r1 as [sv|er].
-    + apply updd_inv in Hr. destruct Hr as (d2 & Hr & _). eapply (IHk _ eq_refl _ _ _ _ _ _ _ Hr).
-    + destruct (unmodelled er); [inversion Hr; auto|]. apply updd_inv in Hr. destruct Hr as (d3 & Hr & _).
-      destruct (run f ip h1 w (hh er)) as [h2 w2 r2 d2| |] eqn:R2; try discriminate.
-      assert (w2 = w) by (eapply (IHh _ eq_refl _ _ _ _ _ _ _ R2)). subst w2.
-      destruct r2 as [sv|e2]; [|inversion Hr; auto]. apply updd_inv in Hr. destruct Hr as (d4 & Hr & _). eapply (IHk _ eq_refl _ _ _ _ _ _ _ Hr).
+    + apply updd_inv in Hr. destruct Hr as (d2 & Hr & _). rewrite <- E1. eapply (IHk _ eq_refl _ _ _ _ _ _ _ Hr).
+    + destruct (unmodelled er); [inversion Hr; subst; auto|]. apply updd_inv in Hr. destruct Hr as (d3 & Hr & _).
+      destruct (run f ip h1 w1 (hh er)) as [h2 w2 r2 d2| |] eqn:R2; try discriminate.
+      assert (E2 : io_of w2 = io_of w1) by (eapply (IHh _ eq_refl _ _ _ _ _ _ _ R2)).
+      destruct r2 as [sv|e2]; [|inversion Hr; subst; congruence]. apply updd_inv in Hr. destruct Hr as (d4 & Hr & _).
+      rewrite <- E1, <- E2. eapply (IHk _ eq_refl _ _ _ _ _ _ _ Hr).
+  - pose proof (module_op_keeps_io w o Ho) as E1. destruct (wstep w o) as [w2 [rv|re]]; cbn [fst] in E1.
+    + rewrite <- E1. eapply (IHk _ eq_refl _ _ _ _ _ _ _ Hr).
+    + inversion Hr; subst; auto.
 Qed.
 
 Theorem bs_pure n : keeps_world (bs n).
@@ -127,17 +136,19 @@ Proof.
   destruct tk as [t|c]; cbn [bs] in Hb.
   - destruct (get h t) as [cl|]; [|inversion Hb; auto].
     destruct (run (bs n) (t::ip) h w (interpret (c_ast cl) (c_env cl))) as [h1 w1 r1 d0| |] eqn:R; try discriminate.
-    assert (w1 = w) by (eapply (run_pure _ IH); [apply wf_interpret|exact R]). subst w1.
-    destruct r1 as [v1|e1]; [|inversion Hb; auto].
-    destruct v1 as [z|fl|b|s|s|l0|dct|f|i|sp l0| |t'|cr ci]; try (inversion Hb; auto).
-    destruct (get h1 t') as [cl'|]; [|discriminate]. destruct (c_cache cl'); [inversion Hb; auto|].
+    assert (E1 : io_of w1 = io_of w) by (eapply (run_pure _ IH); [apply wf_interpret|exact R]).
+    destruct r1 as [v1|e1]; [|inversion Hb; subst; auto].
+    destruct v1 as [z|fl|b|s|s|l0|dct|f|i|sp l0| |t'|cr ci]; try (inversion Hb; subst; auto).
+    destruct (get h1 t') as [cl'|]; [|discriminate]. destruct (c_cache cl'); [inversion Hb; subst; auto|].
     destruct (existsb (Pos.eqb t') (t::ip)); [discriminate|].
-    destruct (bs n (t::ip) h1 w (TThunk t')) as [h2 w2 r2 d2| |] eqn:B; try discriminate.
-    assert (w2 = w) by (eapply IH; [|exact B]; exact I). inversion Hb; subst; auto.
+    destruct (bs n (t::ip) h1 w1 (TThunk t')) as [h2 w2 r2 d2| |] eqn:B; try discriminate.
+    assert (E2 : io_of w2 = io_of w1) by (eapply IH; [|exact B]; exact I). inversion Hb; subst; congruence.
   - eapply (run_pure _ IH); eauto.
 Qed.
-(* C07-T1: evaluating any thunk to a value, for any fuel, leaves stdin and stdout exactly as they were;
-   so does applying any callable, deep-forcing and computing equality keys.  Only do_IO touches the world. *)
-Corollary evaluation_is_pure n ip h w t h' w' r d : bs n ip h w (TThunk t) = Done h' w' r d -> w' = w.
-Proof. intros. eapply bs_pure; eauto. exact I. Qed.
+(* C07-T1: evaluating any thunk to a value, for any fuel, leaves stdin, stdout, every file on the disk and every handle exactly as they were
+   (what ㅂ may have added to the module registry aside); so does applying any callable, deep-forcing and computing equality keys.  Only do_IO
+   touches the world. *)
+Corollary evaluation_is_pure n ip h w t h' w' r d : bs n ip h w (TThunk t) = Done h' w' r d ->
+  w_in w' = w_in w /\ w_out w' = w_out w /\ w_disk w' = w_disk w /\ w_handles w' = w_handles w.
+Proof. intros H. assert (E : io_of w' = io_of w) by (eapply bs_pure; eauto; exact I). unfold io_of in E. inversion E. auto. Qed.
 Print Assumptions evaluation_is_pure.
